@@ -23,6 +23,9 @@ type ContentStoreModule struct {
 	nextDatasetVersion uint64
 }
 
+// maxCsCapacity is the largest CS capacity (in packets) accepted from management.
+const maxCsCapacity = 1 << 32
+
 func (c *ContentStoreModule) String() string {
 	return "ContentStoreMgmt"
 }
@@ -83,6 +86,13 @@ func (c *ContentStoreModule) config(interest *spec.Interest, pitToken []byte, in
 
 	if (params.Flags == nil && params.Mask != nil) || (params.Flags != nil && params.Mask == nil) {
 		core.LogWarn(c, "Flags and Mask fields must either both be present or both be not present")
+		response = makeControlResponse(409, "ControlParameters are incorrect", nil)
+		c.manager.sendResponse(response, interest, pitToken, inFace)
+		return
+	}
+
+	if params.Capacity != nil && *params.Capacity > maxCsCapacity {
+		core.LogWarn(c, "Capacity out of range in ControlParameters for ", interest.Name())
 		response = makeControlResponse(409, "ControlParameters are incorrect", nil)
 		c.manager.sendResponse(response, interest, pitToken, inFace)
 		return
